@@ -294,7 +294,7 @@ void h_dtor(void) {
     XV_CANARY("dtor.no_control_block");
   } else {
     XV_OBL("stamp.dtor.hands_over_all", cb_abandon_n == 1 && cb_abandon_block == cb && xv_td.control_block == 0);     /* released exactly once */
-    XV_OBL("stamp.dtor.hands_over_all", !del_bad_stamp && !del_poison && !reach_poison && !q_add_bad && q_tail_reads == 1);
+    XV_OBL("stamp.dtor.hands_over_all", !del_bad_stamp && !del_poison && !reach_poison && !q_add_bad && q_tail_reads <= 1);   /* handing everything over without a reclaim attempt is allowed */
     XV_OBL("stamp.dtor.hands_over_all", ndel <= in_len && q_add_n == (ndel < in_len ? 1u : 0u));                         /* anything left => one hand-over */
     if (q_add_n) XV_OBL("stamp.dtor.hands_over_all", q_add_first == ND(ndel) && q_add_last == q_add_first);             /* the whole remaining chain, from its first node */
     if (in_j < in_len) {
